@@ -67,6 +67,9 @@ func kindScripts() map[string][]byte {
 		"opret":   append([]byte{txscript.OP_RETURN}, push([]byte("verif filters"))...),
 		"p2pkh":   append(append([]byte{txscript.OP_DUP, txscript.OP_HASH160}, push(h)...), txscript.OP_EQUALVERIFY, txscript.OP_CHECKSIG),
 		"genesis": gen,
+		// never spendable, yet elements of the filter
+		"unparse":  {txscript.OP_DATA_20, 1, 2, 3},
+		"oversize": append([]byte{txscript.OP_TRUE}, bytes.Repeat([]byte{txscript.OP_NOP}, 10000)...),
 	}
 }
 
